@@ -219,9 +219,11 @@ fn transform_submodule(
         // (c) Subtype is generic with a concretisation here
 
         // Get base-node for the generic type.
-        let (mut node, req_args) = nodes.get(&typ.ident)
-            .expect("unreachable: parse order should guarantee, that all required modules are already parsed")
-            .clone();
+        // A generic binding of the enclosing module is no module of its own: it cannot take arguments.
+        let Some((node, req_args)) = nodes.get(&typ.ident) else {
+            return Err(ErrorKind::UnknownModule(typ.ident.clone()).into());
+        };
+        let (mut node, req_args) = (node.clone(), req_args.clone());
 
         // Check that the assigment matches all required generics
         if req_args.len() != typ.args.len() {
@@ -236,8 +238,12 @@ fn transform_submodule(
             let concrete_replacement_name = &typ.args[i];
 
             // Get the concrete type, used as a replacement
-            let (concrete_replacement, replacement_deps) = nodes.get(concrete_replacement_name)
-                .expect("unreachable: parse order should guarantee, that all required modules are already parsed");
+            // (a generic binding of the enclosing module is not a concrete type)
+            let Some((concrete_replacement, replacement_deps)) =
+                nodes.get(concrete_replacement_name)
+            else {
+                return Err(ErrorKind::UnknownModule(concrete_replacement_name.clone()).into());
+            };
             if !replacement_deps.is_empty() {
                 return Err(
                     ErrorKind::InvalidTypStatement(typ.clone(), replacement_deps.clone()).into(),
